@@ -23,7 +23,7 @@ from .clientmodel import client_methods, CM
 FF = M + ".flattened_fields"
 NAME = "{ELEM(" + FF + ".values()).name}"
 KEYH = "{KEY(" + FF + ")}"
-FLAT_LIST = "[{" + FF + ".values()|join(', ', attribute='name')}]"
+FLAT_LIST = "[{', '.join(" + FF + ".values()|map(attribute='name'))}]"      # canonical form of `x|join(', ', attribute='name')` (vlib/tmodel.py)
 
 # accepted idioms for "some flattened parameter was given" over the list variable _L_
 GIVEN_IDIOMS = (
@@ -224,8 +224,8 @@ def check_python(report):
     r.check(ff["order"], p, fm.node.lineno, "entries in signature order", "the mapping must be built in signature order (insertion-ordered, no re-ordering)")
     gf = m.func("gapic.schema.wrappers.MessageType.get_field")
     r.instance("get_field")
-    node_pp, _, _form = fmatch(m, "self.fields[_F_ + ('_' if _F_ in utils.RESERVED_NAMES and self.meta.address.is_proto_plus_type else '')]", gf)
-    node_un, _, _form = fmatch(m, "self.fields[_F_ + ('_' if _F_ in utils.RESERVED_NAMES else '')]", gf)
+    node_pp, _, _form = fmatch(m, "_X_.fields[_F_ + ('_' if _F_ in utils.RESERVED_NAMES and _X_.meta.address.is_proto_plus_type else '')]", gf)
+    node_un, _, _form = fmatch(m, "_X_.fields[_F_ + ('_' if _F_ in utils.RESERVED_NAMES else '')]", gf)
     r.need(node_pp is not None or node_un is not None, "MessageType.get_field: self.fields[<name> + ('_' if <reserved...> else '')]", "lookup key not recognised")
     r.check(node_pp is not None, p, gf.node.lineno, "get_field lookup: key suffixed for every reserved word",
             "the keys of `fields` are Field.name (suffixed only when reserved AND proto-plus); get_field must compute its key under the same condition, "
